@@ -236,3 +236,63 @@ def unpadded_date_fields(model, select=lambda name: True, rel='asn1tools/codecs/
                             bad.append((n, x_.attr, spec, width))
         out.append((fdef, nfmt, bad))
     return out
+
+
+# ---------------------------------------------------------------------------------------------------------------------------------
+# conversion literal agreement: the octet/text conversions of an encode path and of the partner decode path use the same parameters
+def _conversions(f, cls, depth=0, seen=None):
+    """{kind: set of parameter texts} for the conversions made by f and by the helpers it calls (methods of the object, functions of
+    the module; two levels): int<->octets (byteorder, signed), text<->octets (encoding), struct (format)."""
+    seen = seen if seen is not None else set()
+    out = {}
+    if id(f) in seen:
+        return out
+    seen.add(id(f))
+
+    def add(kind, val):
+        out.setdefault(kind, set()).add(val)
+
+    for n in walk_no_nested(f):
+        if not isinstance(n, ast.Call):
+            continue
+        fn = n.func
+        name = fn.attr if isinstance(fn, ast.Attribute) else (fn.id if isinstance(fn, ast.Name) else None)
+        kw = {k.arg: ast.unparse(k.value) for k in n.keywords if k.arg}
+        if name in ('to_bytes', 'from_bytes'):
+            bo = kw.get('byteorder')
+            if bo is None:
+                pos = n.args[1] if len(n.args) > 1 else None
+                bo = ast.unparse(pos) if pos is not None else "'big'" if name == 'from_bytes' and False else None
+            add('int-octets', (bo or '?', kw.get('signed', 'False')))
+        elif name in ('pack', 'unpack', 'pack_into', 'unpack_from') and n.args and (isinstance(fn, ast.Name) or ast.unparse(fn.value) in ('struct',)):
+            add('struct', ast.unparse(n.args[0]))
+        elif name in ('encode', 'decode') and isinstance(fn, ast.Attribute) and len(n.args) <= 2 and n.args \
+                and (isinstance(n.args[0], ast.Constant) and isinstance(n.args[0].value, str) or ast.unparse(n.args[0]).endswith('ENCODING')):
+            add('text-octets', ast.unparse(n.args[0]))
+        elif depth < 2:
+            g = None
+            if isinstance(fn, ast.Attribute) and isinstance(fn.value, ast.Name) and fn.value.id == 'self' and cls is not None:
+                r = cls.find_method(fn.attr)
+                g = r[1] if r else None
+            elif isinstance(fn, ast.Name) and getattr(f, '_mod', None) is not None:
+                r = f._mod.resolve_name(fn.id)
+                g = r if isinstance(r, ast.FunctionDef) else None
+            if g is not None and g.name not in ('encode', 'decode', 'encode_content', 'decode_content'):
+                for k, v in _conversions(g, cls, depth + 1, seen).items():
+                    out.setdefault(k, set()).update(v)
+    return out
+
+
+def conversion_agreement(model, rel):
+    """[(class, encode method, decode method, kind, encoder parameters, decoder parameters, ok)] for every class of the module that defines one
+    side of an (encode, decode) / (encode_content, decode_content) pair and makes a conversion of the same kind on both sides."""
+    out = []
+    for c in model.mod(rel).classes.values():
+        for en, dn in (('encode', 'decode'), ('encode_content', 'decode_content')):
+            er, dr = c.find_method(en), c.find_method(dn)
+            if not er or not dr or (er[1]._cls is not c and dr[1]._cls is not c):
+                continue
+            ce, cd = _conversions(er[1], c), _conversions(dr[1], c)
+            for kind in sorted(set(ce) & set(cd)):
+                out.append((c, er[1], dr[1], kind, ce[kind], cd[kind], ce[kind] == cd[kind]))
+    return out
